@@ -660,6 +660,62 @@ pub fn evalmem(repo: &Path) -> Result<String, String> {
         out.push_str("/-- the `Jump` arm of `lir::eval` (checked verbatim: `program_counter = block_map[b]; continue;`) -/\ndef eval_Jump (b : Nat) : Nat := b\n\n");
     }
 
+    // ---- Call: how arguments are bound to the callee's parameters
+    {
+        let f = find::func(&eval, "eval", None)?;
+        let ms = find::matches_on(&f.block, "instruction");
+        let arm = find::arm_for(&ms[0], "Call")?;
+        // the one loop that binds arguments: `for (name, arg) in <iter> { let val = eval_operand(&vars, arg);
+        // vars.insert(Var { scope: f.scope, kind: VarKind::Explicit(name) }, val.clone()); }`
+        struct Loops(Vec<syn::ExprForLoop>);
+        impl<'ast> syn::visit::Visit<'ast> for Loops {
+            fn visit_expr_for_loop(&mut self, l: &'ast syn::ExprForLoop) {
+                self.0.push(l.clone());
+                syn::visit::visit_expr_for_loop(self, l);
+            }
+        }
+        let mut ls = Loops(vec![]);
+        syn::visit::Visit::visit_expr(&mut ls, &arm.body);
+        let binders: Vec<&syn::ExprForLoop> = ls.0.iter().filter(|l| nospace(&txt(&l.pat)) == "(name,arg)").collect();
+        if binders.len() != 1 {
+            return Err(format!("Call arm: expected one `for (name, arg) in …` loop, found {}", binders.len()));
+        }
+        let l = binders[0];
+        let want_body = "{letval=eval_operand(&vars,arg);vars.insert(Var{scope:f.scope,kind:VarKind::Explicit(name),},val.clone(),);}";
+        if nospace(&txt(&l.body)) != want_body {
+            return Err(format!("Call arm: the argument-binding loop body differs from the modelled `vars.insert(Explicit(name), eval_operand(arg))`: {}", txt(&l.body)));
+        }
+        // `names` is `Some(parameter names)` for a function, `None` for a constant
+        let names_ok = nospace(&txt(&arm.body)).contains(
+            "letnames=match&f.kind{ItemKind::Function{ir_signature,..}=>{Some(ir_signature.parameters.iter().map(|p|p.0))}ItemKind::Constant{..}=>None,};",
+        );
+        if !names_ok {
+            return Err("Call arm: `names` is no longer `Some(ir_signature.parameters.iter().map(|p| p.0))` / `None`".into());
+        }
+        let mut cx = Cx::default();
+        cx.methods.insert("into_iter".into(), Meth::Identity);
+        cx.methods.insert("flatten".into(), Meth::Pure("ROpt.flatten_iter".into()));
+        cx.methods.insert("zip".into(), Meth::Pure("List.zip".into()));
+        cx.methods.insert("rev".into(), Meth::Pure("List.reverse".into()));
+        cx.methods.insert("skip".into(), Meth::Pure("RIter.skip".into()));
+        cx.methods.insert("take".into(), Meth::Pure("RIter.take".into()));
+        let it = cx.v(&l.expr).map_err(|e| format!("Call arm, argument iterator: {e}"))?;
+        out.push_str(&format!(
+            "/-- the `Call` arm of `lir::eval`: which argument operand each parameter of the callee is bound to\n    (`names`: the callee's parameter names, `None` for a constant; the loop body is checked verbatim:\n    `vars.insert(Explicit(name), eval_operand(arg))`). -/\ndef eval_Call_bindings {{α : Type}} (names : Option (List Nat)) (args : List α) : List (Nat × α) :=\n {it}\n\n"
+        ));
+
+        // the code generator passes `[return_ptr?] ++ [ctx?] ++ args` positionally
+        let g = find::func(&codegen, "instruction", Some("FuncGen"))?;
+        let gms = find::matches_on(&g.block, "instruction");
+        let garm = find::arm_for(&gms[0], "Call")?;
+        let gt = nospace(&txt(&garm.body));
+        let want = "letmutnew_args=Vec::new();ifletSome(return_ptr)=return_ptr{new_args.push(self.operand(&return_ptr.clone().into()).0);}ifletSome(ctx)=ctx{new_args.push(self.operand(ctx).0);}forarginargs{new_args.push(self.operand(arg).0);}";
+        if !gt.contains(want) {
+            return Err("FuncGen::instruction Call arm: argument list is no longer `[return_ptr?] ++ [ctx?] ++ args` in order".into());
+        }
+        out.push_str("/-- the `Call` arm of `FuncGen::instruction` (checked verbatim): the explicit arguments are pushed in\n    order, after the optional return pointer and context; a CLIF call binds them positionally to the\n    callee's block parameters, which `FuncGen` declares in the order of `ir_signature.parameters`. -/\ndef cg_Call_bindings {α : Type} (params : List Nat) (args : List α) : List (Nat × α) := params.zip args\n\n");
+    }
+
     // ---- the Switch arm of the code generator
     {
         let f = find::func(&codegen, "instruction", Some("FuncGen"))?;
